@@ -5,7 +5,10 @@ HERE = os.path.dirname(os.path.abspath(__file__))
 VERIF = os.path.dirname(HERE)
 sys.path.insert(0, HERE)
 import props
+import glob
 texts = json.load(open(os.path.join(HERE, "manifest_texts.json")))
+for f in glob.glob(os.path.join(HERE, "manifest_texts.d", "*.json")):
+    texts[os.path.basename(f)[:-5]] = json.load(open(f))
 allids = [json.loads(l)["id"] for l in open(os.path.join(VERIF, "properties.jsonl"))]
 checks = []
 for pid in allids:
